@@ -22,6 +22,9 @@ REPLIES = ['-2-0', '1,-1-1', '-1-0', '0--1', '0', '1', '2', '0,1', '1,0', '0-1',
            '1-', '-', '0-1-2', '٢', '0-99999999999', '１', '1e0', '0x1', ' ', '0, 1', '2,1,0', '0-0,2']
 
 
+RULE += ' Since round 8 a quarter of the runs carry --overwrite (the listing is judged alike).'
+
+
 def gen(rng, n):
     scns, metas = [], []
     for i in range(n):
@@ -49,10 +52,17 @@ def gen(rng, n):
         sort = rng.choice(['date', 'path', 'none', None])
         reply = rng.choice(REPLIES)
         argv = ([scope] if scope is not None else []) + (['--sort', sort] if sort else [])
+        overwrite = rng.random() < 0.25           # --overwrite changes what happens at an existing destination, never the listing
+        if overwrite:
+            argv.insert(rng.randint(1 if scope is not None else 0, len(argv)) if rng.random() < 0.5 else len(argv), '--overwrite')
+            if argv.index('--overwrite') > 0 and argv[argv.index('--overwrite') - 1] == '--sort':
+                argv.remove('--overwrite')
+                argv.append('--overwrite')
         step = {'cmd': 'restore', 'argv': argv, 'stdin': reply + '\n' if rng.random() < 0.9 else reply, 'listdir': rng.choice(['sorted', 'reverse', rng.randint(1, 50)])}
         scn = {'tree': tree, 'mounts': [], 'cwd': cwd, 'uid': 0, 'env': {'HOME': '/home/u', 'TRASH_VOLUMES': '/'}, 'steps': [step]}
         scns.append(scn)
-        metas.append({'ents': ents, 'scope': scope, 'cwd': cwd, 'sort': sort or 'date', 'reply': reply, 'eof': not step['stdin'].endswith('\n')})
+        metas.append({'ents': ents, 'scope': scope, 'cwd': cwd, 'sort': sort or 'date', 'reply': reply, 'eof': not step['stdin'].endswith('\n'),
+                      'overwrite': overwrite})
     return scns, metas
 
 
@@ -176,6 +186,9 @@ def judge(run, scn, meta, res, order_hint, section='state'):
     for i in idxs:
         loc = got[i][2]
         if loc in exists:
+            if meta.get('overwrite'):
+                run.nontriv(('overwrite-existing', n, meta['sort']))    # replaced, or moved inside a directory: C06's subject
+                return
             refused = True
             break
         restored_locs.append(loc)
@@ -250,5 +263,5 @@ def replay(run, payload):
     sort = av[av.index('--sort') + 1] if '--sort' in av else 'date'
     stdin = st.get('stdin') or ''
     judge(run, scn, {'ents': ents, 'scope': scope, 'cwd': scn['cwd'], 'sort': sort, 'reply': stdin.rstrip('\n') if stdin.endswith('\n') else stdin,
-                     'eof': not stdin.endswith('\n')}, res, None)
+                     'eof': not stdin.endswith('\n'), 'overwrite': '--overwrite' in av}, res, None)
     engine.run_monitors(run, 'selection-monitor', [('select', 'x', o, {'scenario': scn})], 'selection monitor rejects', 'mutation-on-invalid-reply', silent=True)
